@@ -192,6 +192,13 @@ def run_shard(ctx):
             spec = gen.klass(gen.max_depth) if idx % 2 else gen.spec()
             if spec["t"] == "ref":
                 continue
+            if idx % 20 == 11:
+                # class names are the caller's choice in the DSL (`Object.inline("a/b", ...)`): the reference to
+                # such a class is a JSON pointer like any other
+                for node in gen_dsl.class_specs(spec):
+                    if node.get("t") == "Object" and "/" not in node.get("name", ""):
+                        node["name"] = node["name"] + rng.choice(["/v1", "~x", "/a~b"])
+                ctx.count("shape.class_name_needs_escaping")
             if idx % 40 == 7 and isinstance(spec.get("kw"), dict):
                 # constructible through the DSL, not writable in a schema document: the empty enum
                 spec["kw"].pop("const", None)
